@@ -11,7 +11,12 @@ reference (`Yaql.EvalOrder.trace`, and its plain-Python transcription `py_trace`
 Per-element lambdas (last clause): pipelines of streaming operators with the same probe expressions INSIDE their
 lambdas, lazy pipelines as second collection of join / zip / concat, consumed completely or partly; the real log
 must equal the log of a lazy plain-Python transcription (`RefEval`: each lambda once per element consumed, in
-order, none for elements never consumed) and of `Yaql.PerElem` (the model the per_element theorems are about)."""
+order, none for elements never consumed) and of `Yaql.PerElem` (the model the per_element theorems are about).
+
+Spelling: every argument of a generated call is written positionally or by keyword (`harness/c11spell.py`: the alias
+of the live registry), in a context of the camelCase or of the Python naming convention; the reference does not
+depend on it (except that eager keyword arguments fire behind the positional ones, in source order): a lazily
+evaluated parameter stays lazy however its argument arrives."""
 import collections
 import json
 
@@ -22,7 +27,7 @@ import yaql
 from yaql.language import conventions, factory, specs, yaqltypes
 
 ID = 'C11'
-LEAN_MODULES = ['Yaql.Props.C11', 'Yaql.Props.C11Gen']
+LEAN_MODULES = ['Yaql.Props.C11', 'Yaql.Props.C11Gen', 'Yaql.Props.C11Spell']
 P = 'Yaql.Props.C11.'
 REQUIRED_THEOREMS = [P + n for n in (
     'eager_once_in_order', 'log_independent_of_candidates', 'eager_fragment_trace', 'short_circuit_and',
@@ -32,20 +37,32 @@ REQUIRED_THEOREMS = [P + n for n in (
     'take_log', 'take_zero_log', 'take_short_log', 'simple_select', 'simple_filter', 'simple_takeWhile', 'simple_skipWhile',
     'applies_selectMany', 'applies_search', 'search_consumed', 'applies_each', 'applies_accumulate', 'applies_zip',
     'concat_log', 'joinRows_events', 'join_pass_events', 'join_empty_outer', 'thunk_per_call', 'thunk_slots')] + [
-    'Yaql.Props.C11Gen.lazy_params', 'Yaql.Props.C11Gen.lazy_functions']
+    'Yaql.Props.C11Gen.lazy_params', 'Yaql.Props.C11Gen.lazy_functions', 'Yaql.Props.C11Gen.lazy_keyword_spelling',
+    'Yaql.Props.C11Gen.lazy_rows_cover', 'Yaql.Props.C11Gen.lazy_rows_every_convention'] + [
+    'Yaql.Props.C11Spell.' + n for n in ('mapLoop_move', 'mapArgs_kw_move', 'mapArgs_kwd_keys', 'chooseOverload_single',
+                                         'lazy_spelling_invariant', 'lazy_spelling_invariant_of_table')]
 TRUSTED = ['the expression generator and its bookkeeping of operand values (taken from separate real evaluations of the '
-           'sub-expressions)', 'harness/gens/registry.py']
+           'sub-expressions)', 'harness/gens/registry.py', 'harness/gens/lazyspell.py',
+           'harness/c11spell.py (names and keyword aliases per convention, read from live contexts)']
 ASSUMPTIONS = ['selectAllCases / examine return lazy iterators (documented); the generator consumes them on the spot with '
                '.toList(), which is the point at which the model places their operands',
                'probes cannot raise; expressions whose evaluation raises are regenerated',
                'per-element part: sources are list literals of <= 5 integers, <= 4 stages; the values of lambda bodies on elements '
                'and the flags of short-circuit operators inside them come from separate real evaluations of the body on the '
                'element; pipelines in which a lambda raises on some element are regenerated',
-               'orderBy: only the bound "at most once per element" is checked (the order in which keys are taken is left open)']
+               'orderBy / thenBy: the bound "at most once per element" and the independence of the log from the spelling are '
+               'checked (the order in which keys are taken is left open)',
+               'spelling: keyword arguments are written behind the positional ones (the grammar rejects the other order), so '
+               'the arguments passed by keyword are a suffix of the parameters plus the ones behind a left-out optional one; '
+               'operators (and, or, ->, ., ?.) and `*args` parameters (coalesce, switch, selectCase, ..) have no keyword '
+               'spelling (C11Gen.lazy_keyword_spelling says which have one)',
+               'single calls (mergeWith, search, searchAll, replaceBy): flat dictionaries of integers and lists, 6 patterns x 5 '
+               'strings']
 
 
 def generate():
-    return pyfacts.run(['Registry'])['Registry']
+    r = pyfacts.run(['Registry', 'LazySpell'])
+    return dict(r['Registry'], lazy_spell=r['LazySpell'])
 
 
 ENGINE = factory.YaqlFactory().create()
@@ -1825,11 +1842,14 @@ def run(env, res):
     n = 15000 if tier == 'quick' else 150000
     max_depth = 3 if tier == 'quick' else 4
     res.rule = ('typed random expressions of depth <= %d with a numbered probe in every operand position (operators, list/map '
-                'literals, indexer, method and keyword calls, library functions, every short-circuit function, a user '
-                'function with 1-6 overloads); distinct = distinct expression text; non-trivial = at least 3 probes and one '
-                'lazy operator or a call of the overloaded function. Plus pipelines of 1-4 streaming operators over a list '
-                'literal with such expressions as per-element lambdas, lazy pipelines as second collection of join/zip/concat, '
-                'consumed completely or partly (non-trivial = at least 2 probe events)' % max_depth)
+                'literals, indexer, method and keyword calls, library functions, every short-circuit function, def and assert '
+                'in every spelling, a user function with 1-6 overloads); distinct = distinct expression text; non-trivial = at '
+                'least 3 probes and one lazy operator or a call of the overloaded function. Plus pipelines of 1-4 streaming '
+                'operators over a list literal or a generating source (generate / generateMany) with such expressions as '
+                'per-element lambdas, lazy pipelines as second collection of join/zip/concat, consumed completely or partly '
+                '(non-trivial = at least 2 probe events); plus single calls of mergeWith / search / searchAll / replaceBy. '
+                'Every argument is written positionally or by keyword (the alias of the live registry; a shuffled suffix of '
+                'the parameters), in a context of the camelCase or of the Python naming convention' % max_depth)
     ctxs = {k: conv_context('camel', k) for k in range(1, 7)}
     hist = {}
     cases = []
@@ -1905,18 +1925,28 @@ def run(env, res):
 
 LEVEL_TEXT = ('Lean 4: the evaluation log of the resolver model is one left-to-right pass over the eager non-constant '
               'arguments, positional then keyword, under the common laziness signature (eager_once_in_order), and does not '
-              'depend on the number of candidates (log_independent_of_candidates); over the evaluation-order model: '
+              'depend on the number of candidates (log_independent_of_candidates); laziness is decided by the parameter an '
+              'argument is bound to, not by its spelling: map_args binds the last positional argument and the same argument '
+              'passed by keyword under the alias to the same parameter (C11Spell.mapArgs_kw_move), and for a lazy parameter '
+              'the two calls have the same outcome - evaluation log and bound vector (C11Spell.lazy_spelling_invariant; '
+              'side conditions from the registry table: lazy_spelling_invariant_of_table); over the evaluation-order model: '
               'eager_fragment_trace and the short_circuit_* theorems; C11Gen.lazy_params / lazy_functions re-prove on the '
-              'regenerated registry that the lazy parameters are where the model assumes; over the per-element model '
-              '(Yaql.PerElem: streams of probe deltas, stages with reactions): conservation of the log for every stage '
+              'regenerated registry that the lazy parameters are where the model assumes, C11Gen.lazy_keyword_spelling that '
+              'every lazy parameter has an unambiguous keyword spelling under every naming convention; over the per-element '
+              'model (Yaql.PerElem: streams of probe deltas, stages with reactions): conservation of the log for every stage '
               '(runOn_log), per_element_total / per_element (an operator that applies its lambda fires, for each input element '
               'consumed and in input order, the probes of pulling it and of the lambda body on it, once - for the whole result '
               'and for its first k+1 results; nothing of the elements behind), take_log (a consumer of k results consumes '
               'exactly k), instances for select/where/distinct/takeWhile/skipWhile/selectMany/any/all/indexWhere/first/'
-              'accumulate/zip/concat/join (join_pass_events, join_empty_outer). Tie: generated probe expressions and '
-              'pipelines evaluated by the real engine, log compared with the predicted trace; C05/C06 tie the resolver model.')
+              'accumulate/zip/concat/join (join_pass_events, join_empty_outer). Tie: generated probe expressions, pipelines '
+              'and single calls, every argument written positionally or by keyword, in contexts of the camelCase and of the '
+              'Python convention, evaluated by the real engine, log compared with the predicted trace; C05/C06 tie the '
+              'resolver model.')
 LEVEL_NOTE = ('trusted: Lean kernel; Model/EvalOrder.lean, Resolve.lean; the generator\'s bookkeeping (operand truthiness '
               'taken from separate real evaluations); Model/PerElem.lean and the harness\'s eager table of per-element facts; '
-              'the lazy transcription RefEval as the reference for the per-element clause.')
+              'the lazy transcription RefEval as the reference for the per-element clause; harness/c11spell.py (aliases read '
+              'from live contexts). lazy_spelling_invariant is for one definition in the family and the last positional '
+              'argument (with overloads, map_args does not type-check keywords of named parameters, so the candidate set can '
+              'depend on the spelling: notes/C12.md).')
 TECHNIQUE = 'Lean 4 proof + generated registry facts + differential trace comparison with numbered probes'
 DESIGN_REF = 'DESIGN.md section 5, C11'
